@@ -1389,31 +1389,32 @@ impl LpgStore {
         } else {
             return false;
         }
-        drop(nodes);
 
         // Get or create label ID
         let label_id = self.get_or_create_label_id(label);
 
-        // Add to node_labels map
-        let mut node_labels = self.node_labels.write();
-        let label_set = node_labels.entry(node_id).or_default();
+        // `nodes` stays read-locked until both label structures are updated, so a concurrent
+        // delete_node (nodes.write() first) cannot slip in between the existence check and
+        // the update and leave a deleted node in the label index. label_index and node_labels
+        // are updated under both locks (same order as delete_node), so a concurrent
+        // remove_label sees either none or both of the changes.
+        {
+            let mut index = self.label_index.write();
+            let mut node_labels = self.node_labels.write();
+            let label_set = node_labels.entry(node_id).or_default();
 
-        if label_set.contains(&label_id) {
-            return false; // Already has this label
+            if !label_set.insert(label_id) {
+                return false; // Already has this label
+            }
+
+            if (label_id as usize) >= index.len() {
+                index.resize(label_id as usize + 1, FxHashMap::default());
+            }
+            index[label_id as usize].insert(node_id, ());
         }
-
-        label_set.insert(label_id);
-        drop(node_labels);
-
-        // Add to label_index
-        let mut index = self.label_index.write();
-        if (label_id as usize) >= index.len() {
-            index.resize(label_id as usize + 1, FxHashMap::default());
-        }
-        index[label_id as usize].insert(node_id, ());
-        // Release before taking `nodes` (lock order: nodes before label_index, see struct docs);
-        // holding it here deadlocks against delete_node, which takes nodes -> label_index.
-        drop(index);
+        // Release everything before taking `nodes` for writing (lock order: nodes before
+        // label_index, see struct docs).
+        drop(nodes);
 
         // Update label count in node record
         if let Some(chain) = self.nodes.write().get_mut(&node_id)
@@ -1495,7 +1496,6 @@ impl LpgStore {
         } else {
             return false;
         }
-        drop(nodes);
 
         // Get label ID
         let label_id = {
@@ -1506,24 +1506,26 @@ impl LpgStore {
             }
         };
 
-        // Remove from node_labels map
-        let mut node_labels = self.node_labels.write();
-        if let Some(label_set) = node_labels.get_mut(&node_id) {
-            if !label_set.remove(&label_id) {
-                return false; // Node doesn't have this label
+        // As in add_label: `nodes` stays read-locked, and both label structures change
+        // under both of their locks (label_index before node_labels, as in delete_node).
+        {
+            let mut index = self.label_index.write();
+            let mut node_labels = self.node_labels.write();
+            if let Some(label_set) = node_labels.get_mut(&node_id) {
+                if !label_set.remove(&label_id) {
+                    return false; // Node doesn't have this label
+                }
+            } else {
+                return false;
             }
-        } else {
-            return false;
-        }
-        drop(node_labels);
 
-        // Remove from label_index
-        let mut index = self.label_index.write();
-        if (label_id as usize) < index.len() {
-            index[label_id as usize].remove(&node_id);
+            if (label_id as usize) < index.len() {
+                index[label_id as usize].remove(&node_id);
+            }
         }
-        // Release before taking `nodes` (lock order: nodes before label_index, see struct docs)
-        drop(index);
+        // Release everything before taking `nodes` for writing (lock order: nodes before
+        // label_index, see struct docs)
+        drop(nodes);
 
         // Update label count in node record
         if let Some(chain) = self.nodes.write().get_mut(&node_id)
